@@ -5,6 +5,7 @@
 import LW.Driver.Circuit
 import LW.Model.Fock
 import LW.Model.Dist
+import LW.Model.Analysis
 
 open Lean
 
@@ -46,6 +47,11 @@ def samplerDist (c : Circ GQ) (input : FState) (b : BackendKind) (eps : Rat) : P
   let pd := pdistCalc b GQ.normSq eps (c.Ufull GQ.I) c.n [(full, 1)]
   if pd.isEmpty then [(List.replicate c.n 0, 1)] else pd
 
+def asRules (j : Json) : R (List Rule) :=
+  asListOf (fun r => do
+    let p ← asPair (asListOf asNat) (asListOf asNat) r
+    pure (⟨p.1, p.2⟩ : Rule)) j
+
 def handleFock (req : Json) : R Json := do
   let what ← asStr (← fld req "what")
   let c ← buildCirc req
@@ -71,6 +77,26 @@ def handleFock (req : Json) : R Json := do
       let pd0 := samplerDist c input b 0
       return Json.mkObj [("pdist", pdistJ pd), ("pdist_exact", pdistJ pd0),
         ("n", natJ c.n), ("loss_modes", natJ ((c.Ufull GQ.I).n - c.n))]
+  | "ana" => do
+      let rules ← asRules (← fld req "rules")
+      let ins ← asListOf (asListOf asOcc) (← fld req "inputs")
+      let ex ← asOpt (asListOf (asListOf (asListOf asNat))) (req.getObjValD "expected")
+      match analyze (Q := Rat) GQ.I GQ.normSq c rules ins ex with
+      | .error e => return Json.mkObj [("error_class", Json.str e.toString)]
+      | .ok r =>
+        return Json.mkObj [
+          ("outputs", listJ stateJ r.outputs),
+          ("probs", listJ (listJ ratJ) r.probs),
+          ("performance", ratJ r.performance),
+          ("error_rate", match r.errorRate with | some e => ratJ e | none => Json.null)]
+  | "quick" => do
+      let rules ← asRules (← fld req "rules")
+      let input ← asListOf asNat (← fld req "input")
+      let pnr ← asBool (← fld req "pnr")
+      let eps ← asRat (← fld req "eps")
+      match quickDist (Q := Rat) GQ.I GQ.normSq eps c rules pnr input with
+      | .error e => return Json.mkObj [("error_class", Json.str e.toString)]
+      | .ok pd => return Json.mkObj [("pdist", pdistJ pd)]
   | s => .error s!"unknown fock request {s}"
 
 end LW.Driver
